@@ -1013,3 +1013,342 @@ Theorem closed_out_prompt_topics r es : wf_prefix r es = true ->
      exists vs, on_topic (TPromptInfoFor t) (pubs_run r es) = map Some vs ++ [None]) /\
   (exists vs, on_topic TPromptNotice (pubs_run r es) = map Some vs ++ [None]).
 Proof. intros H. split; [exact (prompt_topic_closed r es H) | exact (notice_topic_closed r es)]. Qed.
+
+(** ------------------------------------------------------------------ C11_prompt_open_close *)
+
+(** text / trace of the prompt numbered p (its start event) *)
+Fixpoint prompt_txt (es : list event) (p : Z) : Z :=
+  match es with
+  | [] => 0
+  | StartPrompt _ _ _ p' txt :: r => if p' =? p then txt else prompt_txt r p
+  | _ :: r => prompt_txt r p
+  end.
+
+Fixpoint prompt_trace (es : list event) (p : Z) : Z :=
+  match es with
+  | [] => 0
+  | StartPrompt _ t _ p' _ :: r => if p' =? p then t else prompt_trace r p
+  | _ :: r => prompt_trace r p
+  end.
+
+Lemma prompt_txt_app_in p : forall es l, In p (prompt_starts es) -> prompt_txt (es ++ l) p = prompt_txt es p.
+Proof.
+  induction es as [|e es IH]; intros l H; [destruct H|].
+  rewrite prompt_starts_cons in H. simpl. destruct e; auto.
+  destruct (p0 =? p) eqn:E; auto. apply IH. destruct H as [-> | H]; auto. rewrite Z.eqb_refl in E. discriminate.
+Qed.
+
+Lemma prompt_txt_app_notin p : forall es l, ~ In p (prompt_starts es) -> prompt_txt (es ++ l) p = prompt_txt l p.
+Proof.
+  induction es as [|e es IH]; intros l H; auto.
+  rewrite prompt_starts_cons in H. simpl. destruct e; auto.
+  destruct (p0 =? p) eqn:E.
+  - apply Z.eqb_eq in E. subst. exfalso. apply H. left. reflexivity.
+  - apply IH. intros Hin. apply H. right. assumption.
+Qed.
+
+Lemma prompt_trace_app_in p : forall es l, In p (prompt_starts es) -> prompt_trace (es ++ l) p = prompt_trace es p.
+Proof.
+  induction es as [|e es IH]; intros l H; [destruct H|].
+  rewrite prompt_starts_cons in H. simpl. destruct e; auto.
+  destruct (p0 =? p) eqn:E; auto. apply IH. destruct H as [-> | H]; auto. rewrite Z.eqb_refl in E. discriminate.
+Qed.
+
+Lemma prompt_trace_app_notin p : forall es l, ~ In p (prompt_starts es) -> prompt_trace (es ++ l) p = prompt_trace l p.
+Proof.
+  induction es as [|e es IH]; intros l H; auto.
+  rewrite prompt_starts_cons in H. simpl. destruct e; auto.
+  destruct (p0 =? p) eqn:E.
+  - apply Z.eqb_eq in E. subst. exfalso. apply H. left. reflexivity.
+  - apply IH. intros Hin. apply H. right. assumption.
+Qed.
+
+Lemma pcore_sp_full ph r t c p txt ph' :
+  pcore ph (StartPrompt r t c p txt) = Some ph' -> cur_call ph = Some c /\ ph' = PPrompt c p.
+Proof. destruct ph as [| |?|? []|? ?|?|]; simpl; intros H; try discriminate; crush_eqs; auto. Qed.
+
+Lemma pcore_ep_full ph r t c p cmd ph' :
+  pcore ph (EndPrompt r t c p cmd) = Some ph' -> ph = PPrompt c p /\ ph' = PLoop c true.
+Proof. destruct ph as [| |?|? []|? ?|?|]; simpl; intros H; try discriminate; crush_eqs; auto. Qed.
+
+Definition is_start_prompt (e : event) : bool := match e with StartPrompt _ _ _ _ _ => true | _ => false end.
+
+Lemma pcore_to_prompt ph e c q : pcore ph e = Some (PPrompt c q) -> is_start_prompt e = false -> ph = PPrompt c q.
+Proof. destruct ph as [| |?|? []|? ?|?|], e; simpl; intros H Hb; try discriminate; crush_eqs; auto. Qed.
+
+Lemma wfp_nodup_prompts r es : wf_prefix r es = true -> NoDup (prompt_starts es).
+Proof. intros H. apply wf_prefix_unfold in H. destruct H as (_ & _ & H). apply nodupb_spec. assumption. Qed.
+
+(** the PromptInfo stored / published for an open prompt, and its closed version *)
+Definition open_info (r : Z) (full : list event) (t c p : Z) : pinfo :=
+  mkPinfo r t p true (Some (snd (call_payload full c))) (Some (prompt_txt full p)) None false.
+
+Definition close_info (i : pinfo) (cmd : Z) : pinfo :=
+  mkPinfo (pi_run i) (pi_trace i) (pi_no i) false (pi_info i) (pi_txt i) (Some cmd) (pi_tce i).
+
+Lemma on_event_prompt_map rn s e q :
+  dget (pi_prompt (r_pi (fst (on_event rn s e)))) q =
+  match e with
+  | StartPrompt _ t _ p txt =>
+      match dget (pi_call (r_pi s)) t with
+      | Some (_, info) => if q =? p then Some (mkPinfo rn t p true (Some info) (Some txt) None false)
+                          else dget (pi_prompt (r_pi s)) q
+      | None => dget (pi_prompt (r_pi s)) q
+      end
+  | EndPrompt _ _ _ p _ =>
+      match dget (pi_prompt (r_pi s)) p with
+      | Some _ => if q =? p then None else dget (pi_prompt (r_pi s)) q
+      | None => dget (pi_prompt (r_pi s)) q
+      end
+  | _ => dget (pi_prompt (r_pi s)) q
+  end.
+Proof.
+  destruct e; simpl; auto.
+  - unfold tn_end, ti_end, pi_end_trace.
+    destruct (existsb (Z.eqb t) (r_tn s)); destruct (dget (r_ti s) t) as [[? ?]|];
+      destruct (existsb (Z.eqb t) (pi_keys (r_pi s))); simpl; auto.
+  - unfold pi_end_call, pn_end_call. destruct (dget (pi_call (r_pi s)) t) as [[fid info]|]; simpl; auto.
+    destruct (dget (pi_frame (r_pi s)) t) as [f|]; simpl; auto. destruct (fid =? f); simpl; auto.
+  - unfold pi_start_prompt, pn_start_prompt.
+    destruct (dget (pi_call (r_pi s)) t) as [[fid info]|]; destruct (dget (r_pn s) t) as [[? ?]|]; simpl; auto.
+    all: destruct (q =? p) eqn:E;
+      [apply Z.eqb_eq in E; subst; apply dget_dset_same | apply Z.eqb_neq in E; apply dget_dset_other; assumption].
+  - unfold pi_end_prompt. destruct (dget (pi_prompt (r_pi s)) p) eqn:Ed; simpl; auto.
+    destruct (q =? p) eqn:E;
+      [apply Z.eqb_eq in E; subst; apply dget_ddel_same | apply Z.eqb_neq in E; apply dget_ddel_other; assumption].
+Qed.
+
+Definition prompt_inv (r : Z) (es : list event) (g : gstate) : Prop :=
+  forall t c p, ph g t = PPrompt c p ->
+    In p (prompt_starts es) /\ prompt_trace es p = t /\
+    dget (pi_prompt (r_pi (state_events r es))) p = Some (open_info r es t c p).
+
+Lemma prompt_invariant r es : wf_prefix r es = true -> exists g, grun r [] es = Some g /\ prompt_inv r es g.
+Proof.
+  intros Hwf. apply (wfp_ind r (prompt_inv r)); auto.
+  - intros t c p H. discriminate.
+  - clear es Hwf. intros es e g g1 Hwf Hwf' Hg Hs IH t c0 p0 Hph.
+    destruct (gstep_phase _ _ _ _ Hs) as (Hp & Hr & Ho).
+    destruct (call_invariant _ _ Hwf') as (g' & Hg' & Hc). rewrite Hg in Hg'. injection Hg' as <-.
+    pose proof (wfp_nodup_prompts _ _ Hwf) as Hnd. rewrite prompt_starts_app in Hnd.
+    rewrite state_events_snoc, on_event_prompt_map.
+    (* facts about a prompt that was already open before the event *)
+    assert (Hold : forall t, ph g t = PPrompt c0 p0 ->
+              In p0 (prompt_starts (es ++ [e])) /\ prompt_trace (es ++ [e]) p0 = t /\
+              dget (pi_prompt (r_pi (state_events r es))) p0 = Some (open_info r (es ++ [e]) t c0 p0) /\
+              In p0 (prompt_starts es)).
+    { intros t' Ht'. destruct (IH _ _ _ Ht') as (Hin & Htr & Hd).
+      specialize (Hc t'). rewrite Ht' in Hc. cbn [cur_call] in Hc. destruct Hc as (Hcin & _).
+      repeat split; auto.
+      - rewrite prompt_starts_app. apply in_or_app. auto.
+      - rewrite prompt_trace_app_in; auto.
+      - rewrite Hd. unfold open_info. rewrite call_payload_app_in, prompt_txt_app_in; auto. }
+    destruct (is_start_prompt e) eqn:Esp.
+    + (* a prompt starts *)
+      destruct e; try discriminate. cbn [ev_trace] in *.
+      destruct (pcore_sp_full _ _ _ _ _ _ _ Hp) as [Hcc Hp1].
+      assert (Hni : ~ In p (prompt_starts es)).
+      { intros Hin. apply NoDup_remove_2 in Hnd. apply Hnd. rewrite app_nil_r. assumption. }
+      pose proof (Hc t0) as Hc0. rewrite Hcc in Hc0. destruct Hc0 as (Hcin & Hdc & _). rewrite Hdc.
+      destruct (call_payload es c) as [fid info] eqn:Ecp.
+      destruct (Z.eq_dec t t0) as [-> | Hne].
+      * rewrite Hp1 in Hph. injection Hph as <- <-. simpl in Hr. rewrite Z.eqb_refl. split; [|split].
+        -- rewrite prompt_starts_app. apply in_or_app. right. simpl. auto.
+        -- rewrite prompt_trace_app_notin by assumption. simpl. rewrite Z.eqb_refl. reflexivity.
+        -- unfold open_info. rewrite call_payload_app_in by assumption. rewrite Ecp.
+           rewrite prompt_txt_app_notin by assumption. simpl. rewrite Z.eqb_refl. subst r0. reflexivity.
+      * assert (Hph' : ph g t = PPrompt c0 p0) by (unfold ph in *; rewrite <- (Ho t Hne); assumption).
+        destruct (Hold _ Hph') as (H1 & H2 & H3 & H4).
+        assert (Hpp : (p0 =? p) = false) by (apply Z.eqb_neq; intros ->; contradiction).
+        rewrite Hpp. auto.
+    + destruct (Z.eq_dec t (ev_trace e)) as [-> | Hne].
+      * (* same trace, not a prompt start: the prompt was open before (stdout) *)
+        rewrite Hph in Hp. pose proof (pcore_to_prompt _ _ _ _ Hp Esp) as Hph'.
+        destruct (Hold _ Hph') as (H1 & H2 & H3 & H4).
+        destruct e; try discriminate; auto.
+        cbn [ev_trace] in *. apply pcore_ep_full in Hp. destruct Hp as [_ Hp]. discriminate.
+      * assert (Hph' : ph g t = PPrompt c0 p0) by (unfold ph in *; rewrite <- (Ho t Hne); assumption).
+        destruct (Hold _ Hph') as (H1 & H2 & H3 & H4).
+        destruct e; try discriminate; auto.
+        (* another trace closes its prompt: a different prompt number *)
+        cbn [ev_trace] in *. destruct (pcore_ep_full _ _ _ _ _ _ _ Hp) as [Hq _].
+        destruct (IH _ _ _ Hq) as (_ & Htr & Hd). rewrite Hd.
+        assert (Hpp : (p0 =? p) = false).
+        { apply Z.eqb_neq. intros ->. destruct (IH _ _ _ Hph') as (_ & Htr' & _). congruence. }
+        rewrite Hpp. auto.
+Qed.
+
+(** a publication that reports on a prompt: a PromptInfo carrying the prompt text (the
+    trace_call_end notice and the dummy published at trace start carry none) *)
+Definition is_report (x : option value) : bool :=
+  match x with
+  | Some (VPromptInfo i) => match pi_txt i with Some _ => true | None => false end
+  | _ => false
+  end.
+
+(** THE expected reports, a function of the history alone: one "open" per prompt start, one
+    "closed" per prompt end carrying the command of that end event (and the numbers, location
+    and text of the prompt), in stream order; nothing else *)
+Definition prompt_reports (r : Z) (full es : list event) : list (option value) :=
+  flat_map (fun e => match e with
+                     | StartPrompt _ t c p txt =>
+                         [Some (VPromptInfo (mkPinfo r t p true (Some (snd (call_payload full c))) (Some txt) None false))]
+                     | EndPrompt _ t c p cmd =>
+                         [Some (VPromptInfo (mkPinfo r t p false (Some (snd (call_payload full c)))
+                                               (Some (prompt_txt full p)) (Some cmd) false))]
+                     | _ => []
+                     end) es.
+
+Definition report_of (rn : Z) (s : R) (e : event) : list (option value) :=
+  match e with
+  | StartPrompt _ t _ p txt =>
+      match dget (pi_call (r_pi s)) t with
+      | Some (_, info) => [Some (VPromptInfo (mkPinfo rn t p true (Some info) (Some txt) None false))]
+      | None => []
+      end
+  | EndPrompt _ _ _ p cmd =>
+      match dget (pi_prompt (r_pi s)) p with
+      | Some i => filter is_report [Some (VPromptInfo (close_info i cmd))]
+      | None => []
+      end
+  | _ => []
+  end.
+
+Lemma on_event_reports rn s e :
+  filter is_report (on_topic TPromptInfo (snd (on_event rn s e))) = report_of rn s e.
+Proof.
+  destruct e; simpl; auto.
+  - unfold tn_end, ti_end, pi_end_trace.
+    destruct (existsb (Z.eqb t) (r_tn s)); destruct (dget (r_ti s) t) as [[? ?]|];
+      destruct (existsb (Z.eqb t) (pi_keys (r_pi s))); simpl; auto.
+  - unfold pi_end_call, pn_end_call. destruct (dget (pi_call (r_pi s)) t) as [[fid info]|]; simpl; auto.
+    destruct (dget (pi_frame (r_pi s)) t) as [f|]; simpl; auto. destruct (fid =? f); simpl; auto.
+  - unfold pi_start_prompt, pn_start_prompt.
+    destruct (dget (pi_call (r_pi s)) t) as [[fid info]|]; destruct (dget (r_pn s) t) as [[? ?]|]; simpl; auto.
+  - unfold pi_end_prompt. destruct (dget (pi_prompt (r_pi s)) p) as [i|]; simpl; auto.
+    all: try (unfold close_info; simpl; destruct (pi_txt i); reflexivity).
+Qed.
+
+Lemma on_event_reports_for rn s e t' :
+  filter is_report (on_topic (TPromptInfoFor t') (snd (on_event rn s e))) =
+  if t' =? ev_trace e then report_of rn s e else [].
+Proof.
+  destruct (t' =? ev_trace e) eqn:Et.
+  2:{ apply Z.eqb_neq in Et. rewrite on_event_for_other by assumption. reflexivity. }
+  apply Z.eqb_eq in Et. subst t'.
+  destruct e; simpl; rewrite ?Z.eqb_refl; auto.
+  - unfold tn_end, ti_end, pi_end_trace.
+    destruct (existsb (Z.eqb t) (r_tn s)); destruct (dget (r_ti s) t) as [[? ?]|];
+      destruct (existsb (Z.eqb t) (pi_keys (r_pi s))); simpl; rewrite ?Z.eqb_refl; auto.
+  - unfold pi_end_call, pn_end_call. destruct (dget (pi_call (r_pi s)) t) as [[fid info]|]; simpl; auto.
+    destruct (dget (pi_frame (r_pi s)) t) as [f|]; simpl; auto. destruct (fid =? f); simpl; rewrite ?Z.eqb_refl; auto.
+  - unfold pi_start_prompt, pn_start_prompt.
+    destruct (dget (pi_call (r_pi s)) t) as [[fid info]|]; destruct (dget (r_pn s) t) as [[? ?]|]; simpl; rewrite ?Z.eqb_refl; auto.
+  - unfold pi_end_prompt. destruct (dget (pi_prompt (r_pi s)) p) as [i|]; simpl; rewrite ?Z.eqb_refl; auto.
+    all: try (unfold close_info; simpl; destruct (pi_txt i); reflexivity).
+Qed.
+
+Definition prompt_events_known (es : list event) : Prop :=
+  forall e, In e es ->
+    match e with
+    | StartPrompt _ _ c p _ | EndPrompt _ _ c p _ => In c (call_starts es) /\ In p (prompt_starts es)
+    | _ => True
+    end.
+
+Lemma prompt_reports_stable r es l sub :
+  prompt_events_known es -> (forall e, In e sub -> In e es) ->
+  prompt_reports r (es ++ l) sub = prompt_reports r es sub.
+Proof.
+  intros Hk Hsub. apply flat_map_ext_in'. intros e He. specialize (Hk e (Hsub e He)).
+  destruct e; auto; destruct Hk as [Hc Hp].
+  - rewrite call_payload_app_in by assumption. reflexivity.
+  - rewrite call_payload_app_in, prompt_txt_app_in by assumption. reflexivity.
+Qed.
+
+Lemma proj_app t a b : proj t (a ++ b) = proj t a ++ proj t b.
+Proof. unfold proj. apply filter_app. Qed.
+
+Definition reports_inv (r : Z) (es : list event) : Prop :=
+  filter is_report (on_topic TPromptInfo (pubs_events r es)) = prompt_reports r es es /\
+  (forall t, filter is_report (on_topic (TPromptInfoFor t) (pubs_events r es)) = prompt_reports r es (proj t es)) /\
+  prompt_events_known es.
+
+Lemma reports_invariant r es : wf_prefix r es = true -> reports_inv r es.
+Proof.
+  intros Hwf.
+  destruct (wfp_ind r (fun es _ => reports_inv r es)) with (es := es) as (g & _ & H); auto.
+  - split; [reflexivity | split; [intros t; reflexivity | intros e []]].
+  - clear es Hwf. intros es e g g1 Hwf Hwf' Hg Hs (IH1 & IH2 & Hk).
+    destruct (gstep_phase _ _ _ _ Hs) as (Hp & Hr & Ho).
+    destruct (call_invariant _ _ Hwf') as (g' & Hg' & Hc). rewrite Hg in Hg'. injection Hg' as <-.
+    destruct (prompt_invariant _ _ Hwf') as (g' & Hg' & Hpi). rewrite Hg in Hg'. injection Hg' as <-.
+    (* what the event itself contributes *)
+    assert (He : report_of r (state_events r es) e = prompt_reports r (es ++ [e]) [e] /\
+                 match e with
+                 | StartPrompt _ _ c p _ | EndPrompt _ _ c p _ =>
+                     In c (call_starts (es ++ [e])) /\ In p (prompt_starts (es ++ [e]))
+                 | _ => True
+                 end).
+    { destruct e; try (split; [reflexivity | exact I]); cbn [ev_trace] in *; simpl in Hr; subst r0.
+      - destruct (pcore_sp_full _ _ _ _ _ _ _ Hp) as [Hcc _].
+        pose proof (Hc t) as Hc0. rewrite Hcc in Hc0. destruct Hc0 as (Hcin & Hdc & _).
+        unfold report_of, prompt_reports. simpl. rewrite Hdc, call_payload_app_in by assumption.
+        destruct (call_payload es c). split; [reflexivity|].
+        rewrite call_starts_app, prompt_starts_app. split; apply in_or_app; [left; assumption | right; simpl; auto].
+      - destruct (pcore_ep_full _ _ _ _ _ _ _ Hp) as [Hq _].
+        destruct (Hpi _ _ _ Hq) as (Hpin & _ & Hd).
+        pose proof (Hc t) as Hc0. rewrite Hq in Hc0. cbn [cur_call] in Hc0. destruct Hc0 as (Hcin & _).
+        unfold report_of, prompt_reports. simpl. rewrite Hd. unfold open_info, close_info. simpl.
+        rewrite call_payload_app_in, prompt_txt_app_in by assumption. split; [reflexivity|].
+        rewrite call_starts_app, prompt_starts_app. split; apply in_or_app; left; assumption. }
+    destruct He as [He Hke].
+    assert (Hk' : prompt_events_known (es ++ [e])).
+    { intros x Hx. apply in_app_or in Hx. destruct Hx as [Hx | [<- | []]]; [|exact Hke].
+      specialize (Hk x Hx). destruct x; auto; destruct Hk as [H1 H2];
+        rewrite call_starts_app, prompt_starts_app; split; apply in_or_app; auto. }
+    split; [|split; [|exact Hk']].
+    + rewrite pubs_events_snoc, on_topic_app, filter_app, IH1, on_event_reports, He.
+      unfold prompt_reports at 3. rewrite flat_map_app. fold (prompt_reports r (es ++ [e]) es).
+      fold (prompt_reports r (es ++ [e]) [e]).
+      rewrite (prompt_reports_stable r es [e] es Hk (fun x H => H)). reflexivity.
+    + intros t. rewrite pubs_events_snoc, on_topic_app, filter_app, IH2, on_event_reports_for, proj_app.
+      unfold prompt_reports at 2. rewrite flat_map_app. fold (prompt_reports r (es ++ [e]) (proj t es)).
+      assert (Hsub : forall x, In x (proj t es) -> In x es)
+        by (intros x Hx; unfold proj in Hx; apply filter_In in Hx; tauto).
+      rewrite (prompt_reports_stable r es [e] (proj t es) Hk Hsub).
+      f_equal. unfold proj. simpl. rewrite (Z.eqb_sym t). destruct (ev_trace e =? t); [exact He | reflexivity].
+Qed.
+
+Definition no_pinfo (p : publication) : bool :=
+  match p with Pub _ (VPromptInfo _) => false | _ => true end.
+
+Lemma no_reports k : forall ps, forallb no_pinfo ps = true -> filter is_report (on_topic k ps) = [].
+Proof.
+  induction ps as [|p ps IH]; simpl; auto. intros H. apply andb_true_iff in H. destruct H as [H1 H2].
+  destruct p as [k' v|k'|w]; simpl; try destruct (topic_eqb k k'); simpl; auto.
+  destruct v; simpl in *; try discriminate; auto.
+Qed.
+
+Lemma on_end_run_no_pinfo rn s : forallb no_pinfo (snd (on_end_run rn s)) = true.
+Proof.
+  unfold on_end_run, ri_end_run, tn_end_run, ti_end_run, pi_end_run, pn_end_run.
+  assert (H1 : forall m : list (Z * (Z * Z)), forallb no_pinfo
+     (map (fun kv : Z * (Z * Z) => Pub TTraceInfo (VTraceInfo (fst (snd kv)) (fst kv) (snd (snd kv)) false)) m) = true)
+    by (induction m; simpl; auto).
+  assert (H2 : forall l, forallb no_pinfo (map (fun t0 : Z => EndT (TPromptInfoFor t0)) l) = true)
+    by (induction l; simpl; auto).
+  destruct (r_ri s); simpl; rewrite !forallb_app, H1, H2; reflexivity.
+Qed.
+
+(** C11, prompts: over the whole run -- the events of any truncated stream followed by
+    on_end_run -- the prompt reports on prompt_info, and on prompt_info_<t> for the prompts of
+    trace t, are exactly [prompt_reports]: open for each prompt start, then closed with the
+    command of its end event; a prompt still open at the kill gets no closing report *)
+Theorem prompt_open_close r es : wf_prefix r es = true ->
+  filter is_report (on_topic TPromptInfo (pubs_run r es)) = prompt_reports r es es /\
+  forall t, filter is_report (on_topic (TPromptInfoFor t) (pubs_run r es)) = prompt_reports r es (proj t es).
+Proof.
+  intros Hwf. destruct (reports_invariant _ _ Hwf) as (H1 & H2 & _).
+  unfold pubs_run, pubs_end. split; [|intros t];
+    rewrite on_topic_app, filter_app, (no_reports _ _ (on_end_run_no_pinfo r (state_events r es))), app_nil_r; auto.
+Qed.
